@@ -338,89 +338,7 @@ func runC07(c *an.Ctx, p *an.Prog, thorough bool) {
 
 	// ---- C07.4 parse and window ----
 	if split != nil {
-		var bad []string
-		n200 := 0
-		an.EnumPaths(split, nil, nil, func(s *an.PathState) {
-			ret := lastReturn(s)
-			if ret == nil {
-				return
-			}
-			st := ret.Args[0]
-			if v, ok := st.ConstInt(); ok && v != 200 {
-				return
-			}
-			n200++
-			tokenP := s.T(split.Params[1])
-			isPart := func(t *an.Term, i int) bool {
-				f, ok := splitField(s, t)
-				return ok && f.is(tokenP, ":", i, 3) && f.Present
-			}
-			// user name = part 0 of exactly 3 parts
-			if !isPart(ret.Args[2], 0) {
-				bad = append(bad, "200 without the token split at \":\" into exactly 3 parts with the user name being part 0: "+ret.Args[2].K+" on path "+s.BlockPath())
-				return
-			}
-			// flag
-			adm := ret.Args[3]
-			flag := ""
-			for _, a := range s.Atoms {
-				if a.Op == "==" && a.B != nil && isPart(a.A, 1) {
-					flag, _ = a.B.ConstString()
-				}
-			}
-			if !adm.IsConst("true") && !adm.IsConst("false") {
-				// isAdmin := flag == "true" after the flag was restricted to the two spellings
-				if s.IsTrue(adm) {
-					adm = &an.Term{K: "c:true", Op: "const", Aux: "true"}
-				} else if s.IsFalse(adm) {
-					adm = &an.Term{K: "c:false", Op: "const", Aux: "false"}
-				}
-			}
-			switch {
-			case adm.IsConst("true") && flag != "true":
-				bad = append(bad, "admin=true returned without flag == \"true\" on path "+s.BlockPath())
-			case adm.IsConst("false") && flag != "false":
-				bad = append(bad, "admin=false returned without flag == \"false\" (lenient flag parsing) on path "+s.BlockPath())
-			case !adm.IsConst("true") && !adm.IsConst("false"):
-				bad = append(bad, "admin flag is not a constant chosen by the exact flag text: "+adm.K)
-			}
-			// timestamp
-			var pi *an.Term
-			for _, e := range s.Events {
-				if e.Kind == "call" && e.Callee == "strconv.ParseInt" && isPart(e.Args[0], 2) {
-					pi = e.Res
-				}
-			}
-			if pi == nil || !extractNil(s, pi, 1) || !pi.Args[1].IsConst("10") {
-				bad = append(bad, "200 without ParseInt(part 2, 10, …) err==nil on path "+s.BlockPath())
-				return
-			}
-			// age = time.Since(time.Unix(parsed, 0)); age >= 0; age <= lifetime
-			lower, upper := false, false
-			for _, a := range s.Atoms {
-				if a.B == nil || !a.A.IsCallTo("time.Since") {
-					continue
-				}
-				since, _ := a.A.CallOf()
-				ux, _ := since.Args[0].CallOf()
-				if ux == nil || ux.Aux != "time.Unix" || ux.Args[0].K != extractOf(pi, 0).K || !ux.Args[1].IsConst("0") {
-					continue
-				}
-				if a.Op == ">=" && a.B.IsConst("0") || a.Op == ">" && a.B.IsConst("-1") {
-					lower = true
-				}
-				if (a.Op == "<=" || a.Op == "<") && a.B.Op == "load" && a.B.Args[0].Op == "fieldaddr" && a.B.Args[0].Aux == "lifetime" {
-					upper = true
-				}
-			}
-			if !lower {
-				bad = append(bad, "200 without age >= 0 (future-dated tokens accepted) on path "+s.BlockPath())
-			}
-			if !upper {
-				bad = append(bad, "200 without age <= lifetime (expired tokens accepted) on path "+s.BlockPath())
-			}
-		})
-		c.Check(len(bad) == 0 && n200 > 0, "C07.4", fnKey(split)+"|200-guards", p.Pos(split.Pos()), fmt.Sprintf("%d accepting paths: 3 parts ∧ exact flag ∧ ParseInt ok ∧ 0 <= age <= lifetime", n200), strings.Join(uniqS(bad), "; "))
+		sessionWindowRule(c, p, "C07.4")
 	}
 
 	// ---- C07.5 format agreement ----
@@ -539,6 +457,99 @@ func runC07(c *an.Ctx, p *an.Prog, thorough bool) {
 			}
 		}
 	}
+}
+
+// sessionWindowRule (C07.4, shared as C06.8): splitCheckToken answers 200 only for a token of exactly three parts with the
+// exact admin flag, a parsed timestamp and 0 <= age <= lifetime.
+func sessionWindowRule(c *an.Ctx, p *an.Prog, rule string) {
+	split := p.Method("/cmd/whawty-auth", "webSessionFactory", "splitCheckToken")
+	if split == nil {
+		c.Undecided(rule, "main.(*webSessionFactory).splitCheckToken", "-", "UNRESOLVED: anchor not found")
+		return
+	}
+	var bad []string
+	n200 := 0
+	an.EnumPaths(split, nil, nil, func(s *an.PathState) {
+		ret := lastReturn(s)
+		if ret == nil {
+			return
+		}
+		st := ret.Args[0]
+		if v, ok := st.ConstInt(); ok && v != 200 {
+			return
+		}
+		n200++
+		tokenP := s.T(split.Params[1])
+		isPart := func(t *an.Term, i int) bool {
+			f, ok := splitField(s, t)
+			return ok && f.is(tokenP, ":", i, 3) && f.Present
+		}
+		// user name = part 0 of exactly 3 parts
+		if !isPart(ret.Args[2], 0) {
+			bad = append(bad, "200 without the token split at \":\" into exactly 3 parts with the user name being part 0: "+ret.Args[2].K+" on path "+s.BlockPath())
+			return
+		}
+		// flag
+		adm := ret.Args[3]
+		flag := ""
+		for _, a := range s.Atoms {
+			if a.Op == "==" && a.B != nil && isPart(a.A, 1) {
+				flag, _ = a.B.ConstString()
+			}
+		}
+		if !adm.IsConst("true") && !adm.IsConst("false") {
+			// isAdmin := flag == "true" after the flag was restricted to the two spellings
+			if s.IsTrue(adm) {
+				adm = &an.Term{K: "c:true", Op: "const", Aux: "true"}
+			} else if s.IsFalse(adm) {
+				adm = &an.Term{K: "c:false", Op: "const", Aux: "false"}
+			}
+		}
+		switch {
+		case adm.IsConst("true") && flag != "true":
+			bad = append(bad, "admin=true returned without flag == \"true\" on path "+s.BlockPath())
+		case adm.IsConst("false") && flag != "false":
+			bad = append(bad, "admin=false returned without flag == \"false\" (lenient flag parsing) on path "+s.BlockPath())
+		case !adm.IsConst("true") && !adm.IsConst("false"):
+			bad = append(bad, "admin flag is not a constant chosen by the exact flag text: "+adm.K)
+		}
+		// timestamp
+		var pi *an.Term
+		for _, e := range s.Events {
+			if e.Kind == "call" && e.Callee == "strconv.ParseInt" && isPart(e.Args[0], 2) {
+				pi = e.Res
+			}
+		}
+		if pi == nil || !extractNil(s, pi, 1) || !pi.Args[1].IsConst("10") {
+			bad = append(bad, "200 without ParseInt(part 2, 10, …) err==nil on path "+s.BlockPath())
+			return
+		}
+		// age = time.Since(time.Unix(parsed, 0)); age >= 0; age <= lifetime
+		lower, upper := false, false
+		for _, a := range s.Atoms {
+			if a.B == nil || !a.A.IsCallTo("time.Since") {
+				continue
+			}
+			since, _ := a.A.CallOf()
+			ux, _ := since.Args[0].CallOf()
+			if ux == nil || ux.Aux != "time.Unix" || ux.Args[0].K != extractOf(pi, 0).K || !ux.Args[1].IsConst("0") {
+				continue
+			}
+			if a.Op == ">=" && a.B.IsConst("0") || a.Op == ">" && a.B.IsConst("-1") {
+				lower = true
+			}
+			if (a.Op == "<=" || a.Op == "<") && a.B.Op == "load" && a.B.Args[0].Op == "fieldaddr" && a.B.Args[0].Aux == "lifetime" {
+				upper = true
+			}
+		}
+		if !lower {
+			bad = append(bad, "200 without age >= 0 (future-dated tokens accepted) on path "+s.BlockPath())
+		}
+		if !upper {
+			bad = append(bad, "200 without age <= lifetime (expired tokens accepted) on path "+s.BlockPath())
+		}
+	})
+	c.Check(len(bad) == 0 && n200 > 0, rule, fnKey(split)+"|200-guards", p.Pos(split.Pos()), fmt.Sprintf("%d accepting paths: 3 parts ∧ exact flag ∧ ParseInt ok ∧ 0 <= age <= lifetime", n200), strings.Join(uniqS(bad), "; "))
 }
 
 func fieldNameOf(fa *ssa.FieldAddr) string {
